@@ -154,6 +154,27 @@ Theorem C15_new_epoch : forall s i t a d,
 Proof. exact new_epoch. Qed.
 Print Assumptions C15_new_epoch.
 
+(** myth_init() / myth_init_ex(&attr) on an already initialised library is ignored: it returns 1 and
+    leaves the library's attribute object, the worker set, the counters and every other caller unchanged,
+    whatever attribute it carries *)
+Theorem C15_reinit_ignored : forall s i t a d,
+  st s = 2 -> nth_error (threads s) i = Some t -> t_pc t = Idle -> no_fini s = true ->
+  let s' := run step [(i, Call (OpInit a d)); (i, Tick)] s in
+  st s' = 2 /\ gnw s' = gnw s /\ nworkers s' = nworkers s /\ flags s' = flags s /\
+  n_cas s' = n_cas s /\ n_really s' = n_really s /\ n_fini s' = n_fini s /\
+  result s' i = Some 1 /\ rank_of s' i = rank_of s i /\
+  threads s' = set_nth (threads s) i {| t_pc := DoneI 1; t_rank := t_rank t |}.
+Proof. exact reinit_ignored. Qed.
+Print Assumptions C15_reinit_ignored.
+
+(** in every interleaving: while the state is "initialized", no step of any caller except the tear-down of
+    myth_fini changes the attribute object or the number of workers *)
+Theorem C15_initialised_attr_stable : forall n s i e s' t, reachable (initial n) step s ->
+  st s = 2 -> step s (i, e) = Some s' -> nth_error (threads s) i = Some t ->
+  t_pc t = FJoin \/ (gnw s' = gnw s /\ nworkers s' = nworkers s).
+Proof. exact initialised_attr_stable. Qed.
+Print Assumptions C15_initialised_attr_stable.
+
 (** PARTIAL.  Full statement: a finalisation issued while the main thread runs on any worker
     terminates, with the main thread back on worker 0, every exit flag raised and all worker OS
     threads stopped.  Proved: when the migration loop exits the caller is on worker 0; after
